@@ -13,6 +13,7 @@ import (
 	"strings"
 
 	"github.com/rs/zerolog/log"
+	"github.com/samber/lo"
 )
 
 const (
@@ -235,6 +236,21 @@ func ManageHAProxyEndpoints(haproxyEndpoints *HAProxyEndpointsRequest) error {
 	}
 	log.Debug().Msg("✍️  Successfully updated endpoints")
 	return nil
+}
+
+// EndpointsToUnmanage returns the endpoints of the previous configuration
+// that the current one does not register any more. Endpoints are compared by
+// their expression: every request is built from newly allocated
+// HAProxyEndpointData, so comparing the pointers would report all of them.
+func EndpointsToUnmanage(
+	previous []*HAProxyEndpointData,
+	current []*HAProxyEndpointData,
+) []*HAProxyEndpointData {
+	return lo.Filter(previous, func(endpoint *HAProxyEndpointData, _ int) bool {
+		return !lo.ContainsBy(current, func(other *HAProxyEndpointData) bool {
+			return other.Endpoint == endpoint.Endpoint
+		})
+	})
 }
 
 func unmanageHAProxyEndpoints(unmanagedEndpoints []*HAProxyEndpointData) error {
